@@ -26,6 +26,14 @@ def correspond(ctx, nhist=None, variants=("default",), hi_frac=(70, 20, 8, 2), u
     for k in range(nhist // 8):
         b = "cpp" if k % 2 == 0 else "c"
         hists.append((b, iterlib.hint_crossing_history(rng, b)))
+    # exhaustive sweep of re-targeting into the cached-prime table and its hand-over (every target 0..800,
+    # jump_to / skipto, both directions first)
+    for t in range(0, 801):
+        b = "cpp" if t % 2 == 0 else "c"
+        h = [iterlib.MAX64, t, t + 40, max(0, t - 3), 763][t % 5]
+        op = "J %d %d" % (t, h) if t % 3 else "S %d %d" % (t, h)
+        hists.append((b, ["NEW %d %d" % (rng.below(2000), iterlib.MAX64), "N", op] + (["N", "P", "P", "N"] if t % 2 else ["P", "N", "N", "P"])))
+        hists.append((b, ["NEW %d %d" % (rng.below(2000), iterlib.MAX64), "P", op] + (["P", "N"] if t % 2 else ["N", "P"])))
     mismatches = []
     samples = []
     sigs = set()
